@@ -5,6 +5,8 @@ package hapsim
 
 import (
 	"fmt"
+	"os"
+	"path/filepath"
 	"strings"
 	"time"
 
@@ -65,6 +67,10 @@ func (r *Run) Execute(or OracleSet) (err error) {
 	cfg := r.Cfg
 	for _, wo := range cfg.World.Objects {
 		r.kube.Seed(wo.Kind, decodeObj(wo.Kind, wo.Obj))
+	}
+	if why := r.kube.invalidWorld(); why != "" {
+		// a minimisation candidate that dropped an object the rest depends on
+		return invalidRun(why)
 	}
 	for h, ips := range cfg.World.DNS {
 		r.dns[h] = ips
@@ -301,6 +307,10 @@ func (r *Run) checkFresh(prop, oracle string) bool {
 	r.nfHashes[nff.Hash()] = true
 	r.probe("fresh_compared")
 	ok := true
+	if dir := os.Getenv("HAPSIM_DUMP"); dir != "" {
+		dumpTo(filepath.Join(dir, fmt.Sprintf("%02d-long", r.oracleSeq)), r.FileSet(r.prefix))
+		dumpTo(filepath.Join(dir, fmt.Sprintf("%02d-fresh", r.oracleSeq)), r.FileSet(prefix))
+	}
 	if d := DiffNF(nfd, nff, "long-running", "fresh"); d != "" {
 		r.violate(&Violation{Property: prop, Oracle: oracle, Class: "nf-mismatch:" + diffClass(d), Witness: d})
 		ok = false
@@ -437,3 +447,19 @@ func (r *Run) crashRestart() error {
 	r.kube.InitialList()
 	return nil
 }
+
+func dumpTo(dir string, files map[string][]byte) {
+	for p, data := range files {
+		if strings.HasSuffix(p, ".lua") || strings.HasSuffix(p, ".conf") {
+			continue
+		}
+		dst := filepath.Join(dir, p)
+		os.MkdirAll(filepath.Dir(dst), 0755)
+		os.WriteFile(dst, data, 0644)
+	}
+}
+
+// invalidRun marks a run whose world is not a possible cluster state.
+type invalidRun string
+
+func (i invalidRun) Error() string { return "invalid world: " + string(i) }
